@@ -63,6 +63,8 @@ type Root struct {
 type Env struct {
 	Sch   Schema
 	Roots map[string]Root
+
+	lastArr map[uintptr][]string // last value given to arrays that are filled with Append
 }
 
 func up(s string) string {
@@ -70,6 +72,16 @@ func up(s string) string {
 		return s
 	}
 	return strings.ToUpper(s[:1]) + s[1:]
+}
+
+// addr returns a value whose pointer-receiver methods can be called (getters may return composites by value)
+func addr(v reflect.Value) reflect.Value {
+	if v.Kind() == reflect.Struct && !v.CanAddr() {
+		p := reflect.New(v.Type())
+		p.Elem().Set(v)
+		return p
+	}
+	return v
 }
 
 func call(v reflect.Value, name string, args ...any) []reflect.Value {
@@ -152,7 +164,7 @@ func (e *Env) dump(t *Type, v reflect.Value, sb *strings.Builder) {
 			if i > 0 {
 				sb.WriteString(",")
 			}
-			e.dump(t.Elem, call(v, "At", i)[0], sb)
+			e.dump(t.Elem, addr(call(v, "At", i)[0]), sb)
 		}
 		sb.WriteString("]")
 	case "multimap":
@@ -163,9 +175,9 @@ func (e *Env) dump(t *Type, v reflect.Value, sb *strings.Builder) {
 			if i > 0 {
 				sb.WriteString(";")
 			}
-			e.dump(&mm.Key, call(v, "Key", i)[0], sb)
+			e.dump(&mm.Key, addr(call(v, "Key", i)[0]), sb)
 			sb.WriteString("=")
-			e.dump(&mm.Value, call(v, "Value", i)[0], sb)
+			e.dump(&mm.Value, addr(call(v, "Value", i)[0]), sb)
 		}
 		sb.WriteString(")")
 	}
@@ -273,6 +285,71 @@ func (e *Env) set(t *Type, v reflect.Value, j any, so *setOpts) {
 			m.Call([]reflect.Value{sl})
 			return
 		}
+		byAppend := t.Elem.K == "multimap" || (t.Elem.K == "struct" && e.Sch.Structs[t.Elem.ID].Dict != nil)
+		if byAppend {
+			// elements that are handed over (pointer-stored dictionary structs, multimaps by value):
+			// rebuild the array with Append
+			// append-only growth and truncation keep the earlier elements untouched; anything else
+			// rebuilds the array (EnsureLen(0) + Append inside one record)
+			strs := make([]string, len(arr))
+			for i, x := range arr {
+				b, _ := json.Marshal(x)
+				strs[i] = string(b)
+			}
+			key := v.Pointer()
+			old, known := e.lastArr[key]
+			curLen := int(call(v, "Len")[0].Int())
+			if !known && curLen == 0 {
+				old, known = nil, true
+			}
+			start := 0
+			if known && len(old) == curLen {
+				common := 0
+				for common < len(old) && common < len(strs) && old[common] == strs[common] {
+					common++
+				}
+				if common == len(old) || common == len(strs) {
+					// extension or truncation
+					if common < curLen {
+						call(v, "EnsureLen", common)
+					}
+					start = common
+				} else {
+					call(v, "EnsureLen", 0)
+				}
+			} else {
+				call(v, "EnsureLen", 0)
+			}
+			if e.lastArr == nil {
+				e.lastArr = map[uintptr][]string{}
+			}
+			e.lastArr[key] = strs
+			app := v.MethodByName("Append")
+			pt := app.Type().In(0)
+			for _, x := range arr[start:] {
+				var obj reflect.Value
+				if pt.Kind() == reflect.Ptr {
+					obj = reflect.New(pt.Elem())
+				} else {
+					obj = reflect.New(pt)
+				}
+				if im := obj.MethodByName("Init"); im.IsValid() {
+					im.Call(nil)
+				}
+				e.set(t.Elem, obj, x, so)
+				if so.freeze {
+					if fm := obj.MethodByName("Freeze"); fm.IsValid() {
+						fm.Call(nil)
+					}
+				}
+				if pt.Kind() == reflect.Ptr {
+					app.Call([]reflect.Value{obj})
+				} else {
+					app.Call([]reflect.Value{obj.Elem()})
+				}
+			}
+			return
+		}
 		call(v, "EnsureLen", len(arr))
 		for i, x := range arr {
 			e.set(t.Elem, call(v, "At", i)[0], x, so)
@@ -322,7 +399,11 @@ func (e *Env) setField(st *Struct, f *Field, v reflect.Value, j any, so *setOpts
 		return
 	}
 	if f.Optional && setter.IsValid() && setter.Type().NumIn() == 0 {
-		setter.Call(nil) // mark present
+		// mark present; calling Set<F>() on a field that is already present would reset its value
+		// silently (known finding C01-optional-set-resets), so only do it for absent fields
+		if hm := v.MethodByName("Has" + name); !hm.IsValid() || !hm.Call(nil)[0].Bool() {
+			setter.Call(nil)
+		}
 	}
 	e.set(&f.Type, call(v, name)[0], j, so)
 }
@@ -805,6 +886,7 @@ func (e *Env) RunC06(c *Case) (out *Out) {
 }
 
 func (e *Env) RunCase(c *Case) (out *Out) {
+	e.lastArr = nil
 	if c.Mode == "c06" {
 		return e.RunC06(c)
 	}
@@ -935,6 +1017,7 @@ func Main(roots map[string]Root) {
 func (e *Env) sizesLine() string {
 	var parts []string
 	seen := map[int]bool{}
+	seenM := map[int]bool{}
 	var walk func(t *Type, v reflect.Type)
 	walk = func(t *Type, v reflect.Type) {
 		// v is the pointer-to-generated type for composite t
@@ -963,6 +1046,10 @@ func (e *Env) sizesLine() string {
 				}
 			}
 		case "multimap":
+			if seenM[t.ID] {
+				return
+			}
+			seenM[t.ID] = true
 			mm := &e.Sch.Multimaps[t.ID]
 			if mm.Key.K != "prim" {
 				if m, ok := v.MethodByName("Key"); ok {
